@@ -275,6 +275,13 @@ func cmdCheck(args []string) int {
 				perObl = append(perObl, entry)
 				continue
 			case "vacuous":
+				if funcHasFailedObligation(r) {
+					// an obligation that failed earlier in this function is assumed after
+					// it is asserted; unreachability of what follows is its consequence
+					entry["status"] = "unreachable-after-failed-obligation"
+					perObl = append(perObl, entry)
+					continue
+				}
 				fmt.Printf("BROKEN property=%s obligation=%s: %s\n", id, o.Name, o.Detail)
 				broken++
 				perObl = append(perObl, entry)
@@ -467,6 +474,15 @@ func cmdCheck(args []string) int {
 		return 2
 	}
 	return 0
+}
+
+func funcHasFailedObligation(r *FuncReport) bool {
+	for _, o := range r.Obligations {
+		if o.Status == "failed" {
+			return true
+		}
+	}
+	return false
 }
 
 func funcHasContractError(r *FuncReport) bool {
